@@ -31,7 +31,7 @@ def specs(tier):
                             for sibling in ((False, True) if kind in ("pset", "pdel") else (False,)):
                                 idx = len(out)
                                 out.append({"kind": kind, "is_async": is_async, "dbc": dbc, "levels": levels,
-                                            "style": ("def", "lambda")[idx % 2],
+                                            "style": (("def", "lambda", "adef")[idx % 3] if is_async else ("def", "lambda")[idx % 2]),
                                             "err": ("default", "cls", "fac", "inst")[(idx // 2) % 4],
                                             "cap_alias": bool((idx // 8) % 2), "sibling_contract": sibling})
     return out
